@@ -50,8 +50,23 @@ func runC07(res *lib.Result, tier string, seed int64, args []string) error {
 		}
 		want := map[string]bool{}
 		lines := strings.Split(src, "\n")
+		// ReferExp re-pointing: a local declared without a value (or with nil) takes the first expression
+		// assigned to it as its initialiser (and keeps waiting while that is nil again)
+		effInit := map[string]string{}
 		for _, o := range occs {
-			if o.kind == "D" && reads[occLoc(o)] == 0 && o.name != "_" && o.dk == "L" && !libraryAlias(o.init) && o.init != "func" {
+			if o.kind == "D" {
+				effInit[occLoc(o)] = o.init
+			}
+		}
+		for _, o := range occs {
+			if o.kind == "W" && o.t != "G" {
+				if cur, ok := effInit[o.t]; ok && (cur == "" || cur == "nil") && o.init != "" {
+					effInit[o.t] = o.init
+				}
+			}
+		}
+		for _, o := range occs {
+			if o.kind == "D" && reads[occLoc(o)] == 0 && o.name != "_" && o.dk == "L" && !libraryAlias(effInit[occLoc(o)]) && effInit[occLoc(o)] != "func" {
 				want["t4@"+occLoc(o)] = true
 			}
 		}
